@@ -17,6 +17,7 @@ def decResp : V → Option Resp
 def decSeg (v : V) : Option Seg :=
   match v with
   | .list [.atom "atom", n] => n.nat?.map Seg.atom
+  | .list [.atom "line", n] => n.nat?.map Seg.line
   | .list [.atom "data", n] => n.nat?.map Seg.data
   | .list [.atom "err"] => some .err
   | _ => none
